@@ -200,6 +200,7 @@ macro_rules! owned_entry {
             .form("&&[T; N]", f::ref_ref_array::<R, $t>)
             .form("PushIter<vec::IntoIter<T>>", f::iter::<R, $t>)
             .form("PushIter<Vec<T>>", f::iter_vec::<R, $t>)
+            .form("Vec<T> with spare capacity", f::owned_spare::<R, $t>)
             .rform("reserve_items(&Vec<T>)", f::res_refs::<R, Vec<$t>>)
             .rform("reserve_items(&[T])", f::res_slice::<R, $t>)
             .rform("reserve_items(PushIter<Vec<T>>)", f::res_iter::<R, $t>)
@@ -259,6 +260,7 @@ macro_rules! slice_forms {
             .form("&[X; N]", f::ref_array::<$R, $X>)
             .form("&&[X; N]", f::ref_ref_array::<$R, $X>)
             .form("Vec<&X>", f::vec_of_refs::<$R, $X>)
+            .form("Vec<X> with spare capacity", f::owned_spare::<$R, $X>)
             .form("ReadSlice (region-backed)", f::read_item::<$S>)
             .form("ReadSlice (borrowed from owned)", f::borrowed_item::<$S>)
     };
